@@ -271,9 +271,12 @@ func runC07(c c07Case) Result {
 	return ok(class, true).tag(tags...)
 }
 
-func c07Dims() [][2]int {
+func c07Dims(mode string) [][2]int {
 	if Thorough() {
-		return [][2]int{{3, 2}, {2, 3}, {4, 1}, {1, 4}}
+		if mode == "insertion" {
+			return [][2]int{{3, 2}, {2, 3}, {4, 1}, {2, 4}} // an insertion batch must fit the tree
+		}
+		return [][2]int{{3, 2}, {2, 3}, {4, 1}, {1, 4}} // deletion batches may exceed the leaf count (padding)
 	}
 	return [][2]int{{3, 2}}
 }
@@ -294,14 +297,14 @@ func warmSystems(t *testing.T, depth, batch int) {
 }
 
 func TestC07_Insertion(t *testing.T) {
-	dims := c07Dims()
+	dims := c07Dims("insertion")
 	d := dims[Shard()%len(dims) : Shard()%len(dims)+1]
 	warmSystems(t, d[0][0], d[0][1])
 	RunRapid(t, Check[c07Case]{Prop: "C07", Test: "TestC07_Insertion", Gen: genC07("insertion", d), Run: runC07})
 }
 
 func TestC07_Deletion(t *testing.T) {
-	dims := c07Dims()
+	dims := c07Dims("deletion")
 	d := dims[Shard()%len(dims) : Shard()%len(dims)+1]
 	warmSystems(t, d[0][0], d[0][1])
 	RunRapid(t, Check[c07Case]{Prop: "C07", Test: "TestC07_Deletion", Gen: genC07("deletion", d), Run: runC07})
